@@ -28,7 +28,9 @@ def seeded_table():
         exits = ", ".join(f"{p}→{ {0: 'held (missed)', 1: 'VIOLATION', 2: 'undecided', 3: 'checker error'}.get(v['exit'], v['exit']) }" for p, v in sorted(lat.items()))
         first = next((v["first"] for v in lat.values() if v["exit"] == 1), next((v["first"] for v in lat.values() if v["exit"] > 1), ""))
         first = re.sub(r"replay=\S*/replays/", "replay=…/", first)[:170]
-        rows.append(f"| {os.path.basename(d).split('-wt-')[-1]} | {title} | {exits} | `{first}` |")
+        base = os.path.basename(d)
+        label = (base.split("-wt3-")[-1] + " (round 3)") if "-wt3-" in base else base.split("-wt-")[-1]
+        rows.append(f"| {label} | {title} | {exits} | `{first}` |")
     return "\n".join(rows)
 
 
